@@ -155,6 +155,16 @@ def build_reference(root):
     return {'functions': entries}
 
 
+_INV = None
+
+
+def inventory():
+    global _INV
+    if _INV is None:
+        _INV = set(json.load(open(REFERENCE))['functions'])
+    return _INV
+
+
 def apply(repo):
     '''substitute the reference spelling for every function proven equivalent; returns the summary for the evidence'''
     summary = {'reference_functions': 0, 'identical': 0, 'proven_equivalent': [], 'changed': [], 'missing': [], 'new': []}
